@@ -32,6 +32,7 @@ type Scope struct {
 	callee  string
 	bound   map[string]bool
 	next0   string // allocation frontier at the "old" state
+	inQuant bool
 	retGuards map[string]bool // path conditions of the calls that ret(...) refers to
 	failed  error
 }
@@ -636,6 +637,7 @@ func (un *Unit) evBinary(e *EBinary, sc *Scope) SV {
 func (un *Unit) evQuant(e *EQuant, sc *Scope) SV {
 	un.u.usesQuant = true
 	inner := sc.child()
+	inner.inQuant = true
 	var binds []string
 	var guards []string
 	for _, v := range e.Vars {
@@ -760,7 +762,21 @@ func (un *Unit) fieldOf(x SV, isPtr bool, t types.Type, i int, sc *Scope) SV {
 		return SV{t: un.subRef(x.t, t, i), typ: types.NewPointer(ft)}
 	}
 	c, _ := un.fieldComp(t, i)
-	return SV{t: sel(un.get(sc.cur, c), x.t), typ: ft, place: &Place{comp: c, keys: []string{x.t}, typ: ft}}
+	v := sel(un.get(sc.cur, c), x.t)
+	// heap well-formedness: references stored in this version of the field were allocated before it came into being
+	switch ft.Underlying().(type) {
+	case *types.Pointer, *types.Interface, *types.Slice, *types.Map:
+		if len(v) < 400 && !sc.inQuant {
+			bound := un.boundOf(sc.cur, c)
+			un.nextOverride = bound
+			tf := un.typeFacts(sc.cur, v, ft)
+			un.nextOverride = ""
+			// only for objects that already existed when this version of the field came into being: the fields of an
+			// object allocated later (by a callee) are described by that callee's postcondition alone
+			un.addFact(implies("(< "+x.t+" "+bound+")", tf))
+		}
+	}
+	return SV{t: v, typ: ft, place: &Place{comp: c, keys: []string{x.t}, typ: ft}}
 }
 
 func (un *Unit) evIndex(e *EIndex, sc *Scope) SV {
@@ -1096,7 +1112,7 @@ func (un *Unit) applySpecFn(sf *SpecFn, e *ECall, sc *Scope) SV {
 	}
 	if sf.E != nil {
 		// defined function: expand (non-recursive)
-		inner := &Scope{un: un, vars: map[string]SV{}, cur: sc.cur, old: sc.old, pkg: sc.pkg, fr: sc.fr}
+		inner := &Scope{un: un, vars: map[string]SV{}, cur: sc.cur, old: sc.old, pkg: sc.pkg, fr: sc.fr, inQuant: sc.inQuant}
 		for i, p := range sf.Params {
 			pt, ps, err := sc.resolveType(p.Type)
 			if err != nil {
